@@ -71,19 +71,16 @@ func runC01(p *Program, r *Report) {
 	states := ConstNames(tpk, stObj.Type())
 	delims := ConstNames(tpk, dlObj.Type())
 	// ---- R1 total dispatch tables ------------------------------------------------------------
-	if lit, err := p.VarLit("template", "transitionFunc"); err != nil {
+	if disp, dpos, err := stateDispatch(p); err != nil {
 		r.Undec("C01.R1", "template.transitionFunc", "", err.Error())
 	} else {
-		have := map[int64]string{}
-		for i, k := range lit.Keys {
-			kv, _ := k.Int()
-			if lit.Vals[i].Kind == "func" {
-				have[kv] = lit.Vals[i].Obj.Name()
-			}
-		}
 		for _, v := range sortedInt64Keys(states) {
 			c := "template.transitionFunc[" + states[v] + "]"
-			r.Check(have[v] != "", "C01.R1", c, p.Pos(lit.Pos), "transition function "+have[v], "state "+states[v]+" has no transition function (nil call for this lexical shape)")
+			name := ""
+			if disp[v] != nil {
+				name = disp[v].Name()
+			}
+			r.Check(name != "", "C01.R1", c, dpos, "transition function "+name, "state "+states[v]+" has no transition function (nil call for this lexical shape)")
 		}
 	}
 	delimEnd := map[int64]string{}
